@@ -83,8 +83,14 @@ func parsedOptions() ggen.Options {
 	return widened(withSwitches(ggen.Options{MaxCommits: 12, MaxPaths: 5, Empty: true, Binary: true}))
 }
 
+// synShape: what genSynWith may add to the history generator's own output (c15_team_test.go).
+type synShape struct {
+	long        bool // one list in eight: up to 70 commits
+	teamCommits int  // bound on the commits of a list with a team of more than 8 (0: the options' bound)
+}
+
 func genSyn(t *rapid.T) SynCase {
-	return genSynWith(t, synOptions())
+	return genSynWith(t, synOptions(), synShape{long: true, teamCommits: 40})
 }
 
 // SeqCase: the summaries of one commit list, then those of another list in the same process.
@@ -96,7 +102,7 @@ type SeqCase struct {
 func genSeq(t *rapid.T) SeqCase {
 	o := synOptions()
 	o.MaxCommits = 8
-	c := SeqCase{First: genSynWith(t, o), Second: genSynWith(t, o)}
+	c := SeqCase{First: genSynWith(t, o, synShape{teamCommits: 16}), Second: genSynWith(t, o, synShape{teamCommits: 16})}
 	// now and then the second list carries the same abbreviated hashes as the first one
 	if rapid.IntRange(0, 2).Draw(t, "sameHashes") == 2 {
 		reuse(c.First, &c.Second)
@@ -122,8 +128,11 @@ func reuse(first SynCase, second *SynCase) {
 	}
 }
 
-func genSynWith(t *rapid.T, o ggen.Options) SynCase {
-	h := ggen.Gen(t, o)
+func genSynWith(t *rapid.T, o ggen.Options, shape synShape) SynCase {
+	if shape.long && rapid.IntRange(0, 7).Draw(t, "longHistory") == 7 {
+		o.MaxCommits, shape.teamCommits = 70, 70
+	}
+	h := genHistory(t, o, shape.teamCommits)
 	sim, err := ggen.Simulate(h)
 	if err != nil {
 		panic("c15: generated history does not simulate: " + err.Error())
@@ -136,6 +145,11 @@ func genSynWith(t *rapid.T, o ggen.Options) SynCase {
 	}
 	var c SynCase
 	freeNumbers := rapid.IntRange(0, 2).Draw(t, "freeNumbers") > 0
+	// a hot file: one file (followed through its renames; the next one when it is deleted) gets a further
+	// modification in most of the commits that do not touch it anyway
+	hot := rapid.IntRange(0, 3).Draw(t, "hotFile") == 3
+	hotPath := ""
+	live := map[string]bool{}
 	for i, lc := range log {
 		e, ok := byRev[hashes[i]]
 		if !ok {
@@ -158,6 +172,33 @@ func genSynWith(t *rapid.T, o ggen.Options) SynCase {
 			}
 			sc.Changes = append(sc.Changes, ch)
 		}
+		touched := map[string]bool{}
+		for _, ch := range sc.Changes {
+			touched[ch.Old], touched[ch.New] = true, true
+			switch ch.Kind {
+			case "A":
+				live[ch.New] = true
+			case "R":
+				delete(live, ch.Old)
+				live[ch.New] = true
+				if hotPath == ch.Old {
+					hotPath = ch.New
+				}
+			case "D":
+				delete(live, ch.Old)
+			}
+		}
+		if hot {
+			if !live[hotPath] {
+				hotPath = ""
+				if paths := sortedKeys(live); len(paths) > 0 {
+					hotPath = paths[rapid.IntRange(0, len(paths)-1).Draw(t, "hotPath")]
+				}
+			}
+			if hotPath != "" && !touched[hotPath] && rapid.IntRange(0, 3).Draw(t, "touchHot") > 0 {
+				sc.Changes = append(sc.Changes, SynChange{Kind: "M", Old: hotPath, New: hotPath, Added: rapid.IntRange(0, 40).Draw(t, "added"), Deleted: rapid.IntRange(0, 40).Draw(t, "deleted")})
+			}
+		}
 		if len(sc.Changes) > 1 && rapid.Bool().Draw(t, "shuffle") {
 			sc.Changes = rapid.Permutation(sc.Changes).Draw(t, "order")
 		}
@@ -167,7 +208,7 @@ func genSynWith(t *rapid.T, o ggen.Options) SynCase {
 }
 
 func genParsed(t *rapid.T) ParsedCase {
-	h := ggen.Gen(t, parsedOptions())
+	h := genHistory(t, parsedOptions(), 24)
 	sim, err := ggen.Simulate(h)
 	if err != nil {
 		panic("c15: generated history does not simulate: " + err.Error())
@@ -487,6 +528,14 @@ func judge(c SynCase, msgs []git.CommitMessage) pbt.Verdict {
 			add(ch.Kind == "M" && ch.Added+ch.Deleted == 0, "revision_without_line_change")
 		}
 	}
+	v.Classes = append(v.Classes, teamClasses(c)...)
+	for _, rec := range ref.live {
+		add(len(rec.revs) > 8, "file_with_revisions>8")
+		add(len(rec.revs) > 16, "file_with_revisions>16")
+		add(len(rec.revs) > 32, "file_with_revisions>32")
+		add(len(rec.authors) > 8, "file_with_authors>8")
+		add(len(rec.authors) > 16, "file_with_authors>16")
+	}
 	multiRev, multiAuthor, chain := false, false, false
 	revTie, dateTie := false, false
 	seenRevs, seenDates := map[int]bool{}, map[string]bool{}
@@ -735,10 +784,11 @@ func sameAsExpected(msgs []git.CommitMessage, exp []ggen.Expected) bool {
 
 func init() {
 	pbt.SetProperty("C15")
-	pbt.Describe("operation lists drawn by the git-history generator of C14 (add / modify / delete / rename to another name, directory, the root, one directory up or down, replaced or prepended directory components; re-creation of deleted paths; conventional-commit subjects with and without scope; non-decreasing dates with ties; imports of 9-24 files in one commit, so that more than 20 files are left and a change-log type touches more than 10; mode-only changes = revisions without a line change; names that are a prefix or suffix of another name; author names with inner punctuation), linear histories. 'syn': 0-30 commits by 1-8 authors over up to 8 live files (plus imports), turned directly into []CommitMessage with free added/deleted numbers, now and then a commit without any file change, path components that begin with a blank, the order of changes inside a commit shuffled, renames written in git's notation (dir/{a => b}/f, { => sub}/f, {sub => }/f, a => b) or forced to the full-path form; 'parsed': 1-12 commits, up to 5 files, printed in the exact git log layout by the format emulator (validated against real git at start-up) and parsed by BuildMessageByInput; 'seq': two short 'syn' lists (now and then with the same hashes) summarised one after the other in one process, both judged; 'cli': 1-8 commits built with real git (validated like C14's cases), `coca git -b -t -a -o -m` (or, one time in three, a subset of the five flags) run inside the repository, the change-log sections and the rows of the last table read from stdout (4 statistics, files of the team summary, files of the code age, authors - in the order of the flags) and compared with the same reference; code age in the table is months before now, so only the order (oldest first) and the difference of every row to the first row (fixed by the two first-commit dates, +-0.02) are asserted; a case whose commits.json is not the history, or with a cell wider than 70 columns (the table writer folds at 80), is skipped and counted. Oracle: a reference fold over the operation list (old path / new path, not the notation): per live file the set of commits, the set of authors and the date of the first commit; a rename moves the record, a delete drops it. Compared: team summary as a set of (file, revisions, authors) and non-increasing in revisions; code age as a set of (file, first date) and non-decreasing; top authors as a set of (author, commits, added-deleted) with commit counts summing to the number of commits; basic summary commits / authors / distinct paths (with renames only: paths >= files existing at the end); changelog map = per conventional type and file name (the new name for a rename) the number of commits; printed change-log summary (ShowChangeLogSummary / -m) = one section per type with min(10, files) lines, each naming a file of that type with its count, none twice (which ten of more, and the order, are free); all summaries once more in CLI order on one shared commit list must equal the first results. Non-trivial = the history has a rename or a delete and at least 2 authors; distinct = hash of the commit list.",
+	pbt.Describe("operation lists drawn by the git-history generator of C14 (add / modify / delete / rename to another name, directory, the root, one directory up or down, replaced or prepended directory components; re-creation of deleted paths; conventional-commit subjects with and without scope; non-decreasing dates with ties; imports of 9-24 files in one commit, so that more than 20 files are left and a change-log type touches more than 10; mode-only changes = revisions without a line change; names that are a prefix or suffix of another name; author names with inner punctuation), linear histories. Scale, added on top of that generator in all four routes: one history in two is handed, commit by commit, to a team of 2-48 further authors (sizes straddle 8, 16 and 32; names `Dev n`, given + family name, one-word handles, names outside ASCII, near twins of another name: other case, first word alone, with a digit or ' Jr'; all names are ones git prints with %aN), so that there are more than 8 / 16 / 32 distinct authors, authors who commit again after many others have appeared, histories in which every commit has another author, files with more than 8 authors; with a team of more than 8 the history may have up to 40 ('syn'; 70 with a team of more than 32), 24 ('parsed'), 20 ('cli'), 16 ('seq') commits. 'syn' only: one list in eight has up to 70 commits; in one list in four a hot file (followed through its renames, replaced when deleted) is modified once more by three of four commits that do not touch it anyway, which gives files with more than 8 / 16 / 32 revisions. 'syn': 0-30 commits (see above: up to 70) by 1-8 authors (with a team: up to 48) over up to 8 live files (plus imports), turned directly into []CommitMessage with free added/deleted numbers, now and then a commit without any file change, path components that begin with a blank, the order of changes inside a commit shuffled, renames written in git's notation (dir/{a => b}/f, { => sub}/f, {sub => }/f, a => b) or forced to the full-path form; 'parsed': 1-12 commits, up to 5 files, printed in the exact git log layout by the format emulator (validated against real git at start-up) and parsed by BuildMessageByInput; 'seq': two short 'syn' lists (now and then with the same hashes) summarised one after the other in one process, both judged; 'cli': 1-8 commits (with a team of more than 8: up to 20) built with real git (validated like C14's cases), `coca git -b -t -a -o -m` (or, one time in three, a subset of the five flags) run inside the repository, the change-log sections and the rows of the last table read from stdout (4 statistics, files of the team summary, files of the code age, authors - in the order of the flags) and compared with the same reference; code age in the table is months before now, so only the order (oldest first) and the difference of every row to the first row (fixed by the two first-commit dates, +-0.02) are asserted; a case whose commits.json is not the history, or with a cell wider than 70 columns (the table writer folds at 80), is skipped and counted. Oracle: a reference fold over the operation list (old path / new path, not the notation): per live file the set of commits, the set of authors and the date of the first commit; a rename moves the record, a delete drops it. Compared: team summary as a set of (file, revisions, authors) and non-increasing in revisions; code age as a set of (file, first date) and non-decreasing; top authors as a set of (author, commits, added-deleted) with commit counts summing to the number of commits; basic summary commits / authors / distinct paths (with renames only: paths >= files existing at the end); changelog map = per conventional type and file name (the new name for a rename) the number of commits; printed change-log summary (ShowChangeLogSummary / -m) = one section per type with min(10, files) lines, each naming a file of that type with its count, none twice (which ten of more, and the order, are free); all summaries once more in CLI order on one shared commit list must equal the first results. Non-trivial = the history has a rename or a delete and at least 2 authors; distinct = hash of the commit list.",
 		"a file re-created at a path that was deleted or renamed away earlier starts a new record",
 		"inside one commit every path is touched at most once (what a git tree diff can express), so the order of a commit's changes is immaterial",
 		"dates never decrease along the log, so 'first commit' and 'oldest commit' of a file coincide",
+		"an author is the exact name string (names that differ in case, or by a prefix, are different authors, as for git without a mailmap)",
 		"the order of the top-author list is not asserted (the statement promises none); 'Changes' of the basic summary is not asserted",
 		"conventional type = the word before ':' or '(scope):' at the very start of the subject, as written by the generator; subjects without a prefix start with a plain word followed by a blank",
 		"the 'parsed' route uses linear histories and leaves out the subject and path shapes on which the pinned parser is wrong (C14's findings); a case whose parser output differs from the history is skipped and counted, not judged")
